@@ -26,12 +26,22 @@ import (
 type rt struct {
 	mu   sync.Mutex
 	reqs []*http.Request
+	// stream: a manifest GET is answered with a body of unannounced length (chunked), which makes FetchReference ask
+	// again (HEAD) for the descriptor
+	stream bool
 }
 
 func (r *rt) RoundTrip(req *http.Request) (*http.Response, error) {
 	r.mu.Lock()
 	r.reqs = append(r.reqs, req)
+	stream := r.stream
 	r.mu.Unlock()
+	if stream && req.Method == http.MethodGet && strings.Contains(req.URL.Path, "/manifests/") {
+		h := http.Header{}
+		h.Set("Content-Type", ocispec.MediaTypeImageManifest)
+		return &http.Response{StatusCode: 200, Status: "200 OK", Header: h, ContentLength: -1,
+			Body: io.NopCloser(strings.NewReader(`{"schemaVersion":2}`)), Request: req}, nil
+	}
 	return &http.Response{StatusCode: 404, Status: "404 Not Found", Header: http.Header{}, Body: io.NopCloser(strings.NewReader("")), Request: req}, nil
 }
 
@@ -105,6 +115,18 @@ func (d *drv) url(ref registry.Reference) {
 				if err == nil {
 					rc.Close()
 				}
+			}},
+			call{"manifests", func() {
+				rec.mu.Lock()
+				rec.stream = true
+				rec.mu.Unlock()
+				_, rc, err := repo.FetchReference(ctx, sp)
+				if err == nil {
+					rc.Close()
+				}
+				rec.mu.Lock()
+				rec.stream = false
+				rec.mu.Unlock()
 			}},
 			call{"manifests", func() { repo.Resolve(ctx, sp) }},
 			call{"manifests", func() { repo.PushReference(ctx, desc, bytes.NewReader(body), sp) }},
@@ -197,7 +219,7 @@ func TestDrive(t *testing.T) {
 		name string
 		n    int
 	}{{"sha256", 64}, {"sha384", 96}, {"sha512", 128}, {"sha1", 40}, {"md5", 32}, {"sha256", 63}, {"sha256", 65}, {"sha512", 64}, {"SHA256", 64}}
-	regs := []string{"localhost", "localhost:5000", "registry.example.com", "reg.io:443", "10.0.0.1:5000", "[::1]:5000", "[::1]",
+	regs := []string{"localhost", "localhost:5000", "registry.example.com", "reg.io:443", "10.0.0.1:5000", "[::1]:5000", "[::1]", "[2001:db8::1]", "[fe80::1]:443",
 		"user@host", "user:pw@host:80", "host:port", "host:80:90", "Reg-1.Example.COM", "a..b", "-x-", "h#f", "h?q", "h h", ""}
 	repos := []string{"a", "hello-world", "a/b/c", "a__b", "a___b", "a.b_c-d", "a--b", "a._b", "A", "a/", "/a", "a//b", "a/B", "0", "a-", "-a", "a_", "library/ubuntu"}
 	mkdigest := func() string {
